@@ -11,6 +11,9 @@ NOTE = ("Trusted base: the Go type checker (go/types), go/packages loading of /r
 
 # id -> (technique, level text, design ref)
 CLAIMS = {
+ "C09": ("census of the subtype-relation call in every cast/type-test implementation + controlling-condition check of the force-cast failure + twin agreement of the optional-unboxing guard between interpreter and VM",
+         "Structural necessary conditions: casts and type tests of both engines decide through the one subtype relation on the dynamic type, fail exactly on its false outcome, and unbox optionals under the same guard.",
+         "DESIGN.md §4 C09"),
  "C36": ("field-coverage of pool reset paths (SSA stores/clear calls vs struct fields) + dominance of reset after Get and clear before Put + deferred-release check of the CCF scratch buffer + who-may-write of package-level maps/slices with init-only caller chains",
          "Structural necessary conditions: pooled objects carry no state from a previous user, pool objects are cleared before reuse and released only when no longer referenced, and process-shared tables are written only during package initialisation.",
          "DESIGN.md §4 C36"),
